@@ -1,12 +1,16 @@
 pub mod c01;
 pub mod c02;
 pub mod c03;
+pub mod c04;
 pub mod c05;
 pub mod c07;
 pub mod c09;
 pub mod c10;
 pub mod c12;
 pub mod c13;
+pub mod c14;
+pub mod c15;
+pub mod c16;
 pub mod c17;
 use crate::check::Prop;
 pub fn all() -> Vec<Box<dyn Prop>> {
@@ -14,6 +18,7 @@ pub fn all() -> Vec<Box<dyn Prop>> {
         Box::new(c01::C01),
         Box::new(c02::C02),
         Box::new(c03::C03),
+        Box::new(c04::C04),
         Box::new(c05::C05),
         Box::new(c05::C06),
         Box::new(c07::C07),
@@ -23,6 +28,9 @@ pub fn all() -> Vec<Box<dyn Prop>> {
         Box::new(c03::C11),
         Box::new(c12::C12),
         Box::new(c13::C13),
+        Box::new(c14::C14),
+        Box::new(c15::C15),
+        Box::new(c16::C16),
         Box::new(c17::C17),
     ]
 }
